@@ -438,16 +438,22 @@ fn ebv(t: &T) -> Result<bool, ()> {
     if let Some(b) = boolean(t) { return Ok(b.unwrap_or(false)) }
     if let Some(s) = plain_string(t) { return Ok(!s.is_empty()) }
     if let T::Lang(s, _) = t { return Ok(!s.is_empty()) }
-    if let T::Lit(_, dt) = t { if dt == XI || dt == XD || dt == XF { return Ok(match numeric(t) { Some(Nv::Int(x)) => x != 0, Some(Nv::Real(x)) => x != 0.0 && !x.is_nan(), None => false }) } }
+    if let T::Lit(_, dt) = t { if dt == XI || dt == XD || dt == XF || dt == "http://www.w3.org/2001/XMLSchema#float" { return Ok(match numeric(t) { Some(Nv::Int(x)) => x != 0, Some(Nv::Real(x)) => x != 0.0 && !x.is_nan(), None => false }) } }
     Err(())
+}
+thread_local! { static EXOTIC_OPERAND: std::cell::Cell<bool> = std::cell::Cell::new(false); }
+/// a literal whose value class the small expression transcription coq/C13/Eval.v does not model (decimal, float, double,
+/// dateTime, ill-formed integer): expressions over such operands are the business of the expression layer (c13e)
+fn exotic(t: &T) -> bool {
+    match t { T::Lit(lex, dt) => dt == XD || dt == XF || dt == "http://www.w3.org/2001/XMLSchema#float" || dt == "http://www.w3.org/2001/XMLSchema#dateTime" || (dt == XI && numeric(t).is_none() && !lex.is_empty()) || (dt == XI && lex.is_empty()) || (dt == XB && !matches!(lex.as_str(), "true" | "false" | "1" | "0")), _ => false }
 }
 /// Ok(Ok(term)) value, Ok(Err(())) SPARQL evaluation error, Err(..) the oracle cannot decide
 fn ev(e: &Ex, mu: &Mu, ds: &Ds, g: &Option<T>) -> Result<Result<T, ()>, OErr> {
     macro_rules! tryv { ($x:expr) => { match ev($x, mu, ds, g)? { Ok(v) => v, Err(()) => return Ok(Err(())) } } }
     let ebv_of = |e: &Ex| -> Result<Result<bool, ()>, OErr> { Ok(match ev(e, mu, ds, g)? { Ok(v) => ebv(&v), Err(()) => Err(()) }) };
     Ok(match e {
-        Ex::Var(v) => mu.get(v).cloned().ok_or(()),
-        Ex::Const(t) => Ok(t.clone()),
+        Ex::Var(v) => { if let Some(t) = mu.get(v) { if exotic(t) { EXOTIC_OPERAND.with(|f| f.set(true)); } } mu.get(v).cloned().ok_or(()) }
+        Ex::Const(t) => { if exotic(t) { EXOTIC_OPERAND.with(|f| f.set(true)); } Ok(t.clone()) }
         Ex::Bound(v) => Ok(tbool(mu.contains_key(v))),
         Ex::Not(a) => ebv_of(a)?.map(|b| tbool(!b)),
         Ex::Or(a, b) => match (ebv_of(a)?, ebv_of(b)?) { (Ok(true), _) | (_, Ok(true)) => Ok(tbool(true)), (Ok(false), Ok(false)) => Ok(tbool(false)), _ => Err(()) },
@@ -469,6 +475,7 @@ fn ev(e: &Ex, mu: &Mu, ds: &Ds, g: &Option<T>) -> Result<Result<T, ()>, OErr> {
                         else if let (Some(s), Some(t)) = (plain_string(&x), plain_string(&y)) { Some(Ord::cmp(s, t)) }
                         else if let (Some(Some(p)), Some(Some(q))) = (boolean(&x), boolean(&y)) { Some(Ord::cmp(&p, &q)) }
                         else if matches!((&x, &y), (T::Lang(..), T::Lang(..))) { return Err(OErr::Undetermined("order of language-tagged strings".into())) }
+                        else if x == y && x.is_literal() { return Err(OErr::Undetermined("order of a valueless literal with itself (operator extension, 17.3.1)".into())) }
                         else { None };
                     match ord { None => Err(()), Some(o) => Ok(tbool(match *op { "Greater" => o.is_gt(), "GreaterOrEqual" => o.is_ge(), "Less" => o.is_lt(), _ => o.is_le() })) }
                 }
@@ -956,6 +963,7 @@ non-trivial = the engine returned at least one row / true, or an error was expec
     let total = dir.len() + a.n;
     let range: Vec<usize> = match a.only { Some(i) => vec![i], None => (0..total).collect() };
     for idx in range {
+        EXOTIC_OPERAND.with(|f| f.set(false));
         let mut r = base.fork(idx as u64);
         let (label, di, text) = if idx < dir.len() { let (l, d, q) = &dir[idx]; (*l, *d, q.clone()) } else {
             let di = r.below(datasets.len());
@@ -1009,6 +1017,7 @@ non-trivial = the engine returned at least one row / true, or an error was expec
         if seen.insert((text.clone(), di)) && nontrivial { sum.distinct_nontrivial += 1; }
         if sum.samples.len() < 6 && nontrivial && idx >= dir.len() { sum.samples.push(format!("case {idx} on d{di}: {text} => {}", match &obs { Obs::Rows(v, r) => format!("{} rows over {v:?}", r.len()), o => format!("{o:?}") })); }
         // ---------- Coq case ----------
+        if EXOTIC_OPERAND.with(|f| f.replace(false)) { sum.bump("coq:skipped (an expression touched a decimal/float/double/dateTime/ill-formed operand: expression layer c13e)"); continue }
         let Some(cq) = c_query(&q) else { sum.bump("coq:not-expressible"); continue };
         let observed = match &obs {
             Obs::Rows(vars, rows) => {
